@@ -119,7 +119,8 @@ theorem Pc.atFlag_task {p : Pc} {k : TaskId} (h : p.atFlag = some k) : p.task = 
 
 inductive Step (s : St) (t : Tid) : St → Prop
   | stutter : Step s t s
-  | wr (v : Int) (hr : (s.pc t).holdsX = true) : Step s t { s with val := v }
+  | wr (v : Int) (hr : (s.pc t).holdsX = true) (hrun : ∃ k, (s.pc t).running = some k) :
+      Step s t { s with val := v }
   | move (p p' : Pc) (hp : s.pc t = p) (hc : SameClass p p') : Step s t (s.setPc t p')
   | skipDrain (c : Ctx) (hp : s.pc t = .dLoad c) (hf : s.flag = false) : Step s t (s.setPc t (.dRun c))
   | skipShared (c : SCtx) (hp : s.pc t = .sFlag c) (hf : s.flag = false) : Step s t (s.setPc t (.sAcq c))
@@ -272,7 +273,7 @@ theorem step_sound {s s' : St} {t : Tid} {e : Ev} (hs : step s t e = some s') : 
   · split at hs
     · injection hs with hs; subst hs; exact .stutter
     · contradiction
-  · rename_i c j v hp; injection hs with hs; subst hs; exact .wr v (by simp [hp, Pc.holdsX])
+  · rename_i c j v hp; injection hs with hs; subst hs; exact .wr v (by simp [hp, Pc.holdsX]) ⟨j, by simp [hp, Pc.running]⟩
   · rename_i c j j' r hp; split at hs
     · injection hs with hs; subst hs; exact .endHead c j _ hp
     · contradiction
@@ -282,7 +283,7 @@ theorem step_sound {s s' : St} {t : Tid} {e : Ev} (hs : step s t e = some s') : 
   · split at hs
     · injection hs with hs; subst hs; exact .stutter
     · contradiction
-  · rename_i k a v hp; injection hs with hs; subst hs; exact .wr v (by simp [hp, Pc.holdsX])
+  · rename_i k a v hp; injection hs with hs; subst hs; exact .wr v (by simp [hp, Pc.holdsX]) ⟨k, by simp [hp, Pc.running]⟩
   · rename_i k a k' r hp; split at hs
     · injection hs with hs; subst hs; exact .endOwn k a _ _ hp
     · contradiction
@@ -519,7 +520,7 @@ macro "cls" : tactic =>
 theorem invL_step {s s' : St} {t : Tid} (h : InvL s) (hs : Step s t s') : InvL s' := by
   cases hs with
   | stutter => exact h
-  | wr v hr => exact invL_congr h (fun _ => rfl) (fun _ => rfl) (fun _ => rfl) rfl rfl rfl
+  | wr v hr _ => exact invL_congr h (fun _ => rfl) (fun _ => rfl) (fun _ => rfl) rfl rfl rfl
   | move p p' hp hc =>
     subst hp; exact invL_move h rfl hc.hX hc.hS hc.hQ rfl rfl rfl
   | skipDrain c hp hf => exact invL_move h rfl (by cls) (by cls) (by cls) rfl rfl rfl
